@@ -31,6 +31,7 @@ type stats struct {
 	hist, ops, commits, runs, crashes, doubles, movedOn, caughtUp, noCrash, viol int
 	ctx                                                                        map[string]int
 	blocks, reorgs, imports, removes, creates, newaddr                         int
+	importOnly, importOnlyFF, ioBelow                                          int
 }
 
 var st = stats{ctx: map[string]int{}}
@@ -49,6 +50,26 @@ func options(n int, long bool) cfsim.GenOptions {
 	return o
 }
 
+// importOnly: among the first 48 histories (the quick tier) every sixth one belongs to the import-only
+// family (internal/cfsim/importonly.go: the only wallet of the database is being restored when the
+// process stops, the node is reorganised and grows while it is down), beyond them every 24th; one in
+// eight of the first and one in four of the others is long enough for the node to end more than 2000
+// blocks above the stored tip (Start's fast-forward). With 48 histories and 8 worker processes every
+// worker gets one of them.
+func importOnly(n int) (member, ff bool) {
+	if n%6 != 4 {
+		return false, false
+	}
+	m := n / 6
+	if n < 48 {
+		return true, m%8 == 2
+	}
+	if m%4 != 0 {
+		return false, false
+	}
+	return true, m%16 == 4
+}
+
 func emitModel(w *bufio.Writer, id string, lines []string) {
 	for i, l := range lines {
 		if i == 0 && strings.HasPrefix(l, "H ") {
@@ -62,7 +83,23 @@ func emitModel(w *bufio.Writer, id string, lines []string) {
 
 func one(w *bufio.Writer, seed uint64, n int, all bool, quota int, long bool, only string) {
 	opt := options(n, long)
-	s, err := cfsim.Generate(seed, n, opt)
+	io, ioFF := importOnly(n)
+	if !long {
+		io = false
+	}
+	var s *cfsim.Script
+	var info *cfsim.IOInfo
+	var err error
+	if io {
+		opt.Long, opt.LongNoWallet = 0, false
+		quiet := 0
+		if ioFF && (n/48)%2 == 0 {
+			quiet = 1 // (the long history of the quick tier: the rescan finishes, the report is wrong)
+		}
+		s, info, err = cfsim.GenerateImportOnly(seed, n, cfsim.IOOptions{Hist: opt.Hist, FF: ioFF, QuietBranch: quiet})
+	} else {
+		s, err = cfsim.Generate(seed, n, opt)
+	}
 	if err != nil {
 		fmt.Fprintf(w, "X %d harness-error generate: %v\n", n, err)
 		return
@@ -89,6 +126,18 @@ func one(w *bufio.Writer, seed uint64, n int, all bool, quota int, long bool, on
 	}
 	fmt.Fprintf(w, "S %d ops=%d commits=%d blocks=%d reorgs=%d creates=%d newaddr=%d imports=%d removes=%d long=%d foreign=%d\n",
 		n, len(s.Ops), twin.Commits, s.Stats.Blocks, s.Stats.Reorgs, s.Stats.Creates, s.Stats.NewAddr, s.Stats.Imports, s.Stats.Removes, opt.Long, foreign)
+	if io {
+		st.importOnly++
+		if ioFF {
+			st.importOnlyFF++
+		}
+		if info.Shape == "below-cursor" {
+			st.ioBelow++
+		}
+		fmt.Fprintf(w, "S %d family=import-only shape=%s ff=%v quiet-branch=%v chainA=%d fork=%d abandoned=%d newtip=%d abandoned-blocks-paying-the-wallet-below-the-cursor=%d commits-of-the-restore=%d..%d foreign=%d\n",
+			n, info.Shape, ioFF, info.Quiet, info.L, info.Fork, info.Depth, info.NewTip, info.PaidGone,
+			twin.CommitsAt[info.ImportOp-1]+1, twin.CommitsAt[info.ImportOp+1], foreign)
+	}
 	emitModel(w, fmt.Sprintf("%d:twin", n), twin.Lines)
 
 	r := rng.New(seed*977 + uint64(n)*13 + 5)
@@ -112,6 +161,35 @@ func one(w *bufio.Writer, seed uint64, n int, all bool, quota int, long bool, on
 			m, _ = strconv.Atoi(strings.TrimSuffix(parts[1], "d"))
 		}
 		plans = append(plans, plan{ks, m, drop})
+	} else if io {
+		// every commit of the restore (ImportWalletWithMnemonic, then one per rescan batch) is a
+		// crash point, the whole outage (reorganisation + growth) happens while the wallet is down
+		c0, c1 := twin.CommitsAt[info.ImportOp-1], twin.CommitsAt[info.ImportOp+1]
+		// (the announcements the dead process missed are lost: a late announcement of a block below
+		// the stored tip would send the restarted wallet through a reorganisation of its own)
+		for k := c0 + 1; k <= c1; k++ {
+			if ioFF && !all && k == c1 && c1-c0 >= 2 {
+				continue // (the long history, quick tier: the commit that finishes the rescan is left to the short ones)
+			}
+			plans = append(plans, plan{[]int{k}, 100000, true})
+		}
+		if c1-c0 >= 2 {
+			kb := c1 - 1 // the last commit before the one that finishes the rescan: between two batches
+			// ... the same with the missed announcements delivered late
+			plans = append(plans, plan{[]int{kb}, 100000, false})
+			// ... crash again while Start catches up / fast-forwards, or right after it
+			plans = append(plans, plan{[]int{kb, 1 + r.Intn(4)}, 100000, true})
+			// ... only a part of the outage happens while the wallet is down: the node is found
+			// SHORTER than the stored tip (all detaches, a few attaches), the rest arrives live
+			if info.Depth > 0 && (!ioFF || all) {
+				plans = append(plans, plan{[]int{c0 + 1 + r.Intn(c1-c0)}, info.Depth + r.Intn(3), r.Chance(50)})
+			}
+		}
+		if all {
+			for x := 0; x < 4; x++ {
+				plans = append(plans, plan{[]int{c0 + 1 + r.Intn(c1-c0), 1 + r.Intn(8)}, []int{100000, info.Depth, info.Outage / 2}[r.Intn(3)], r.Chance(50)})
+			}
+		}
 	} else {
 		C := twin.Commits
 		var ks []int
@@ -248,7 +326,7 @@ func main() {
 	for k, v := range st.ctx {
 		cs = append(cs, fmt.Sprintf("ctx_%s=%d", strings.Replace(k, "-", "_", -1), v))
 	}
-	fmt.Fprintf(os.Stderr, "STATS histories=%d ops=%d commits=%d crashed_runs=%d crashes=%d multi_crash_runs=%d node_ops_while_down=%d blocks_caught_up=%d no_crash=%d divergences=%d blocks=%d reorgs=%d creates=%d newaddr=%d imports=%d removes=%d %s\n",
+	fmt.Fprintf(os.Stderr, "STATS histories=%d ops=%d commits=%d crashed_runs=%d crashes=%d multi_crash_runs=%d node_ops_while_down=%d blocks_caught_up=%d no_crash=%d divergences=%d blocks=%d reorgs=%d creates=%d newaddr=%d imports=%d removes=%d import_only_histories=%d import_only_ff=%d import_only_fork_below_cursor=%d %s\n",
 		st.hist, st.ops, st.commits, st.runs, st.crashes, st.doubles, st.movedOn, st.caughtUp, st.noCrash, st.viol,
-		st.blocks, st.reorgs, st.creates, st.newaddr, st.imports, st.removes, strings.Join(cs, " "))
+		st.blocks, st.reorgs, st.creates, st.newaddr, st.imports, st.removes, st.importOnly, st.importOnlyFF, st.ioBelow, strings.Join(cs, " "))
 }
